@@ -97,14 +97,11 @@ class Buffer(PartHandler):
 
         self._buffer.append((self.env.now, self._part))
         self._part = None
-        self.notify_upstream_of_available_space()
+        if self.level() < self._capacity:
+            self.notify_upstream_of_available_space()
         if len(self._buffer) == 1:
             # Indicates that the buffer was empty.
             self._schedule_pass_part_downstream(self._minimum_delay)
-
-    def notify_upstream_of_available_space(self):
-        if self.level() < self._capacity:
-            super().notify_upstream_of_available_space()
 
     def _remaining_wait_time(self, stored_time):
         return self._minimum_delay - (self.env.now - stored_time)
